@@ -185,12 +185,20 @@ def new_item():
 class SWorld:
     """Pool of real objects.  Objects are named by their index in these lists."""
 
-    def __init__(self, nv, nu=0, vclasses=None):
+    def __init__(self, nv, nu=0, vclasses=None, twin=False):
         reset_globals()
         self.v = []
         for i in range(nv):
             cls = Vertex if not vclasses else vclasses[i]
             self.v.append(cls(attributes={"i": i}))
+        if twin and nv >= 2:
+            # the last vertex is a TWIN of the first: a distinct object that carries the same uid -- what a
+            # pickle round trip (or deepcopy) of a vertex gives; a library that tells vertices apart by
+            # uid / equality instead of identity confuses the two
+            import pickle as _pickle
+            t = _pickle.loads(_pickle.dumps(self.v[0]))
+            t.i = nv - 1
+            self.v[-1] = t
         self.u = [Universe(attributes={"i": 100 + k}) for k in range(nu)]
         self.l = []
         self.flag = False
@@ -345,7 +353,8 @@ class Alphabet:
 
     def __init__(self, nv, maxl, maxar=2, classes=("D", "U"), raw=True, none_ends=True,
                  explicit_ops=True, bad=True, nu=0, membership=False, setters=True,
-                 link_ft_classes=()):
+                 link_ft_classes=(), twin=False):
+        self.twin = twin          # the last vertex of the pool is a twin of the first (same uid, distinct object)
         self.nv, self.maxl, self.maxar = nv, maxl, maxar
         self.classes = tuple(classes)
         self.raw, self.none_ends, self.explicit = raw, none_ends, explicit_ops
